@@ -69,6 +69,64 @@ def run_ct(driver, progs, work, name):
     return oj
 
 
+def asm_observations(work, tier):
+    """machine-level observation of the assembly routines, which the source instrumenter cannot see: a small program
+    (harness/cmd/asmct) built from the working tree calls Multiply and Square a fixed number of times on one operand pair
+    and runs under `valgrind --tool=callgrind`; the observation is the number of instructions executed inside every function
+    that comes from a .s file.  One run per pair of operand classes (secret values: zero limbs, the limbs of p, one, the
+    bound, random); the runs are compared with the first one by TraceCT like any other pair of observation traces."""
+    import random
+    import re
+    import shutil
+    if not shutil.which("valgrind") or not shutil.which("callgrind_annotate"):
+        return None, "valgrind/callgrind not found: the assembly is covered by the Asm machine only"
+    exe = os.path.join(work.dir, "asmct")
+    rc, out = vlib.run([os.path.join(vlib.VERIF, "bin", "build_driver"), vlib.repo(), exe], 600, env=dict(vlib.goenv(), VERIF_CMD="asmct"))
+    if rc != 0:
+        return None, "asmct does not build against this tree (%s): the assembly is covered by the Asm machine only" % out.strip().splitlines()[-1][:200]
+    rng = random.Random(vlib.seed() * 65537 + 3)
+    m = 2**51
+    classes = [[0] * 5, [m - 19] + [m - 1] * 4, [1, 0, 0, 0, 0], [m + 2**37 - 1] + [m + 2**33 - 1] * 4, [m - 1] * 5,
+               [rng.randrange(m) for _ in range(5)]]
+    if tier != "quick":
+        classes += [[0, 0, 0, 0, 1], [2 * (m - 19) % (m + 2**36)] + [m] * 4, [19, 0, 0, 0, 0], [rng.randrange(m) for _ in range(5)],
+                    [rng.randrange(2**20) for _ in range(5)]]
+    n = 20
+    pairs = [(a, b) for a in classes for b in classes]
+
+    def one(k):
+        a, b = pairs[k]
+        cg = os.path.join(work.dir, "cg-%d.out" % k)
+        # the Go runtime's preemption signals can trip an assertion inside callgrind: no asynchronous preemption, one
+        # processor, no collector; a crashed run is repeated
+        env = dict(os.environ, GODEBUG="asyncpreemptoff=1", GOMAXPROCS="1", GOGC="off")
+        for attempt in range(4):
+            rc, o = vlib.run(["valgrind", "--tool=callgrind", "--callgrind-out-file=" + cg, exe, str(n)] + [str(x) for x in a + b], 600, env=env)
+            if rc == 0:
+                break
+        if rc != 0:
+            return None
+        rc, o = vlib.run(["callgrind_annotate", "--threshold=100", cg], 120)
+        os.remove(cg)
+        obs = []
+        for line in o.splitlines():
+            mm = re.match(r"\s*([\d,]+) \([^)]*\)\s+(\S+\.s):(\S+)", line)
+            if mm and os.path.realpath(mm.group(2)).startswith(os.path.realpath(vlib.repo()) + os.sep):
+                obs.append("%s Ir=%s" % (mm.group(3), mm.group(1).replace(",", "")))
+        return sorted(obs)
+    with cf.ThreadPoolExecutor(max_workers=vlib.NCPU) as ex:
+        res = list(ex.map(one, range(len(pairs))))
+    if any(r is None for r in res) or not res[0]:
+        return None, "callgrind produced no per-function counts for assembly routines (none in this build?)"
+    ta, tb = os.path.join(work.dir, "asm-a.obs"), os.path.join(work.dir, "asm-b.obs")
+    with open(ta, "w") as fa, open(tb, "w") as fb:
+        for k in range(1, len(pairs)):
+            for f, obs, (a, b) in ((fa, res[0], pairs[0]), (fb, res[k], pairs[k])):
+                f.write(json.dumps({"prog": 1, "i": k, "op": "asm(Multiply,Square)", "err": 0, "panic": 0, "obs": obs,
+                                    "operands": [[str(x) for x in a], [str(x) for x in b]]}) + "\n")
+    return (ta, tb, pairs, res), "%d operand pairs x %d calls; per-call instruction counts of %s" % (len(pairs), n, ", ".join(x.split(" ")[0] for x in res[0]))
+
+
 def check(tier):
     t0 = time.time()
     work = vlib.Work(PROP)
@@ -80,6 +138,7 @@ def check(tier):
         mc.append(asm)
         if asm.get("failed") or "amd64_error" in asm["extracted"]:
             print("NOTE: assembly item: %s" % (asm.get("failed") or asm["extracted"].get("amd64_error")))
+        asm_obs, asm_note = asm_observations(work, tier)
         builds = [("default", None), ("purego", "purego")]
         shapes = 4 if tier == "quick" else 24
         variants = 3 if tier == "quick" else 5
@@ -87,6 +146,19 @@ def check(tier):
         pairs, nprogs = 0, 0
         sample = None
         info = {}
+        info["assembly_instruction_counts"] = asm_note
+        if asm_obs:
+            ta, tb, apairs, ares = asm_obs
+            r = vlib.validate_trace(work, ta, "TraceCT.cfg", "TraceCT", 600, "3g", tb)
+            for k in tot:
+                tot[k] += r[k]
+            for f in r["fails"]:
+                f["build"] = "default"
+                f["siteA"] = "assembly, operands %s" % json.dumps(apairs[0])
+                f["siteB"] = "assembly, operands %s" % json.dumps(apairs[f["i"]])
+                f["programA"] = {"asmct": [str(x) for x in apairs[0][0] + apairs[0][1]]}
+                f["programB"] = {"asmct": [str(x) for x in apairs[f["i"]][0] + apairs[f["i"]][1]]}
+                fails.append(f)
         with cf.ThreadPoolExecutor(max_workers=vlib.NCPU) as ex:
             jobs = []
             for bname, tags in builds:
@@ -167,6 +239,23 @@ def check(tier):
 def replay(path):
     data = json.load(open(path))
     work = vlib.Work(PROP + "-replay")
+    if isinstance(data.get("programA"), dict) and "asmct" in data["programA"]:
+        try:
+            obs, note = asm_observations(work, "thorough")
+            if not obs:
+                print("replay: " + note)
+                return 2
+            ta, tb, apairs, ares = obs
+            r = vlib.validate_trace(work, ta, "TraceCT.cfg", "TraceCT", 600, "3g", tb)
+            own = [f for f in r["fails"] if any(x["prop"] == PROP for x in f["fails"])]
+            for f in own[:3]:
+                print("VIOLATION property=%s replay=%s" % (PROP, path))
+                print("  assembly instruction counts differ: %s vs %s (operands %s vs %s)" % (f.get("obsA"), f.get("obsB"), apairs[0], apairs[f["i"]]))
+            if not own:
+                print("replay: equal instruction counts on the current tree")
+            return 1 if own else 0
+        finally:
+            work.cleanup()
     try:
         tags = "purego" if data.get("build") == "purego" else None
         drv, sites, _ = build_instrumented(work, "r", tags)
